@@ -69,7 +69,8 @@ def eval_guard(g, active, gv):
         if not isinstance(tgt, str) or not tgt:
             return False
         tgt = tgt[1:] if tgt.startswith("#") else tgt
-        return tgt in active
+        # a full id, or a relative dotted name: whole trailing segments of an active id
+        return any(a == tgt or a.endswith("." + tgt) for a in active)
     v = gv.get(t)
     if v is None:
         raise Missing(t)
